@@ -230,7 +230,7 @@ def shard(ctx, acc):
     for k in ('subscript_delete', 'def_with_default_and_decorator', 'chained_compare', 'lambda_def', 'comprehension', 'print_call'):
       if k in prog['meta']:
         cls.append('has:' + k)
-    cls += ['has:' + k for k in prog['meta'] if k.startswith('bare_def:')]
+    cls += ['has:' + k for k in prog['meta'] if k.startswith(('bare_def:', 'def_signature:', 'for_starred_target'))]
     if info.get('generator_slip'):
       cls.append('generator_slip')
       acc.notes.append(info['generator_slip'])
